@@ -608,6 +608,8 @@ def update_wrapper(wrapper, func, injected=None, expected=None, build_from=None,
 
     execdict = dict(_call=wrapper, _func=func)
     fully_wrapped = fb.get_func(execdict, with_dict=update_dict)
+    if getattr(func, '__doc__', None) is None:
+        fully_wrapped.__doc__ = None  # FunctionBuilder turns a missing docstring into ''
 
     if hide_wrapped and hasattr(fully_wrapped, '__wrapped__'):
         del fully_wrapped.__dict__['__wrapped__']
